@@ -87,6 +87,8 @@ def enc_val(v) -> str:
         return "OBytesIO{data=" + enc_val(v.getvalue()) + ",pos=i" + str(v.tell()) + "}"
     if type(v).__name__ == "Metadata" and type(v).__module__ == "packaging.metadata":   # x6: the instance dict, in order
         return "OMetadata{" + ",".join(f"{k}={enc_val(x)}" for k, x in vars(v).items()) + "}"
+    if isinstance(v, types.MethodType):                                        # x7: a bound method, by name and receiver
+        return "Omethod{name=" + enc_val(v.__func__.__name__) + ",self=" + enc_val(v.__self__) + "}"
     if isinstance(v, WireObj):                                                 # x6
         return "O" + v.cls + "{" + ",".join(f"{k}={enc_val(x)}" for k, x in v.fields.items()) + "}"
     if isinstance(v, Env):
@@ -1928,6 +1930,63 @@ EXT_FUNCS |= {"_Validator.__get__"}
 X6_INOUT = {"_Validator.__get__": 1}
 X6_ENV_FUNCS = {"_musllinux.platform_tags", "_is_compatible", "_manylinux.platform_tags", "_have_compatible_abi", "_get_glibc_version",
                 "_linux_platforms", "mac_platforms", "ios_platforms", "tags.platform_tags"}
+
+
+# ------------------------------------------------------------------------------------------------ x7: seventh round
+def _g_parse_version(rng):
+    from gen import versions as GV
+    r = rng.random()
+    st = GV.struct(rng)
+    if r < 0.6:
+        return [GV.spell(rng, st)]
+    if r < 0.8:
+        s = GV.spell(rng, st)
+        i = rng.randrange(len(s) + 1)
+        return [s[:i] + rng.choice(["", "x", ".", "+", "!", " ", "-", "1"]) + s[i + (rng.random() < 0.5):]]
+    return [rng.choice(["", "1", "v1", " 1.0 ", "1.0+", "1.0+a.b", "1!", "a", "1.0.dev", "1.0-1", None, 1, ["1"]])]
+
+
+LOCAL_PARTS = ["abc", "1", "01", "Ubuntu", "7", "x86", "000", "A", "b2", "", "12", "deadBEEF", "0"]
+
+
+def _g_parse_local_version(rng):
+    if rng.random() < 0.15:
+        return [None]
+    n = rng.choice([1, 1, 2, 3, 4])
+    out = rng.choice(LOCAL_PARTS)
+    for _ in range(n - 1):
+        out += rng.choice(".-_") + rng.choice(LOCAL_PARTS)
+    if rng.random() < 0.1:
+        out = rng.choice(["", ".", "a..b", "-a", "a_", "1.-2"])
+    return [out]
+
+
+def _g_spec_get_operator(rng):
+    sp = _spec_obj(rng)[0]
+    op = rng.choice(["~=", "==", "!=", "<=", ">=", "<", ">", "==="] * 3 + ["", "=", "=>", "====", " ==", "~", "equal"])
+    return [sp, op]
+
+
+def _g_spec_dunder_contains(rng):
+    return _g_spec_contains(rng)[:2]
+
+
+FUNCS.update({
+    "Version.major": ("packaging.version", "Version.major", _g_version_method(0.3)),
+    "Version.minor": ("packaging.version", "Version.minor", _g_version_method(0.3)),
+    "Version.micro": ("packaging.version", "Version.micro", _g_version_method(0.3)),
+    "Version.is_devrelease": ("packaging.version", "Version.is_devrelease", _g_version_method(0.1)),
+    "Version.__repr__": ("packaging.version", "Version.__repr__", _g_version_method(0.3)),
+    "parse": ("packaging.version", "parse", _g_parse_version),
+    "_parse_local_version": ("packaging.version", "_parse_local_version", _g_parse_local_version),
+    "Specifier.__repr__": (_SP, "Specifier.__repr__", _g_spec_self),
+    "Specifier.__contains__": (_SP, "Specifier.__contains__", _g_spec_dunder_contains),
+    "Specifier._get_operator": (_SP, "Specifier._get_operator", _g_spec_get_operator),
+    "SpecifierSet.__repr__": (_SP, "SpecifierSet.__repr__", _g_sset_self_env),
+})
+X5_FUNCS |= {"SpecifierSet.__repr__"}
+ORDER_FUNCS |= {"SpecifierSet.__repr__"}
+# ------------------------------------------------------------------------------------------------ x7 end
 
 
 class _Src:
